@@ -1,62 +1,52 @@
 (* C07 for every former ID, with the process stopping inside steps of the
-   continuation (round 4, task R4a). Statements only; proofs are in
-   Proofs/LineageK.v, LineageK2.v, LineageK3.v, non-vacuity and tests in
-   Proofs/LineageKEx.v. They extend Properties/C07H.v (read its header for
-   lineage, L, absent, presents, dead_answer, lin_obs, all_steps, LI, LN, rchain).
+   history (round 4, task R4a, and its follow-up). Statements only; proofs are in
+   Proofs/LineageK.v .. LineageK4.v, LineageE.v, LineageE2.v, HistLiftB.v,
+   LineageB.v, LineageF.v; non-vacuity and tests in Proofs/LineageKEx.v. They
+   extend Properties/C07H.v (read its header for lineage, L, absent, presents,
+   dead_answer, lin_obs, all_steps, LI, LN, rchain).
 
    C07H covers fault-free, CRASH-FREE histories (cache loss HDropCache and restarts
    HRestart included); C07_stays_dead covers crashes but only the ended ID itself.
 
-   FULL STATEMENT (C07K_destroyed_statement, C07K_invalidated_statement,
-   C07K_stays_statement below): the lineage theorems for every fault-free
-   history, i.e. with rq_crash r = Some n for ANY n in any request step before
-   and after the ending request. NOT PROVED. Tested by computation at every crash
-   point of 10 kinds of steps, twice in a row, two cache sizes (Proofs/LineageKEx.v,
-   the lk_mid examples): no counterexample.
+   PROVED HERE, IN FULL (C07K_destroyed, C07K_invalidated, C07K_stays): the
+   lineage theorems for EVERY fault-free history: rq_crash r = Some n for ANY n in
+   any request step before and after the ending request (the ending request itself
+   runs to completion), with cache loss and restarts anywhere. Every step of the
+   continuation satisfies lin_claim_k: nobody is returned or left with a session
+   under an ID of the lineage, no such ID is drawn again, a request presenting one
+   gets a dead_answer if it completes and shows nothing at all if the process stops
+   inside it; and at every later point every ID of the lineage resolves to nothing
+   or to a replaced-ID record naming an ID of the lineage.
 
-   PROVED (the _late theorems): the same for histories whose crashes are LATE:
-   the process stops inside a request step after the step's last WRITE: every
-   event that the crash point rq_crash r = Some n cuts off is a read (a load of a
-   record or of a user's list of sessions). In particular (C07K_late_crash_beyond)
-   every n greater than the number of persistence calls the step makes, and
-   (C07K_late_crash_reads) EVERY n in a step that only reads, such as a request
-   that presents a former ID and is refused. Everything the step wrote is in the
-   store; the response is not sent (the client's jar is unchanged, nothing is
-   observed); the cache, the handler's objects and ALL PENDING CLEAN-UPS are lost
-   - so replaced-ID records of the lineage may now outlive their grace period in
-   the store; they still answer nothing but ERefMissing / EExpiredID / a fresh
-   session. Crash-free histories are a special case (C07K_crash_free_is_late), so
-   these theorems subsume the corresponding ones of C07H.
+   How (the two pieces that the first round left open):
+   (1) The events of a step. Every persistence call of a fault-free request step
+       from a state satisfying the lineage invariant writes, under an ID of the
+       lineage D, only a replaced-ID record naming an ID of D, and every
+       replaced-ID record it writes names a generated ID with a larger ordinal
+       than its own key (C07K_events_step; operation by operation:
+       C07K_events_start, _regenerate, _login, _logout, _handler_op, _create,
+       _logout_user, _fire_due, _script). Hence the store that a crash after ANY
+       number of calls leaves (Hist.step: the pre-state store with that prefix of
+       the events replayed) still satisfies the store-side of the invariant
+       (C07K_mid_crash_store).
+   (2) The heap mark. LI / LN contain PF's winv with heap mark 0, false after such
+       a crash (C07_fresh_heap_clause_crash_refuted). HistLiftB.v and LineageB.v
+       redo the lifting of HistLift3.v and the lineage step theorems for an
+       arbitrary heap mark b (LIb b, LNb b D); a crash moves the mark to the end of
+       the heap (C07K_crash_inv). LIx / LNx D = "for some heap mark" are kept by
+       every fault-free step of every hop kind (C07K_LIx_step, C07K_inv_step) and
+       hold in every reachable state (C07K_LIx_reach).
 
-   WHAT IS MISSING for a crash that cuts off writes (or draws): Hist.step then
-   leaves the pre-state store with the first n persistence calls of the step
-   replayed and the ID supply rolled back to the draws among them. (1) The
-   invariants LI / LN are proved (Proofs/HistLift3.v, Section Rider) for the
-   states BETWEEN API operations; a theorem about the store between two
-   persistence calls of one operation (e.g. between the two saves of
-   RegenerateID) needs the lifting redone at the granularity of persistence
-   calls: every save of a step writes, under an ID of the lineage, only a
-   replaced-ID record naming an ID of the lineage. (2) LI / LN contain PF's winv
-   with heap mark 0 (every heap object carries a drawn ID), which is false after
-   a mid-step crash (C07_fresh_heap_clause_crash_refuted: objects of the lost
-   process stay in the model's heap with IDs that were rolled back); the lifting
-   of HistLift3.v would have to be redone for an arbitrary heap mark, as
-   HistInv.v..HistInv3.v are. Neither clause of the statement is known or
-   suspected to be false.
-
-   Towards (1), PROVED CONDITIONALLY (C07K_mid_crash_store_conditional): for a
-   crash after ANY number of persistence calls, IF every persistence call of the
-   step respects the lineage (ev_lin D: a successful save under an ID of D writes
-   a replaced-ID record naming an ID of D) THEN right after the crash every ID of
-   D is drawn and resolves to nothing or to a replaced-ID record naming an ID of
-   D. The hypothesis for every step from a state satisfying LN D is
-   C07K_events_statement (not proved; it holds, by computation, of every step
-   used in the tests: lk_events_ok). *)
+   The theorems of the first round for LATE crashes (the _late_partial ones: the
+   crash cuts off nothing but reads) are kept below; they are special cases. The
+   computed tests at every crash point of 10 kinds of steps (Proofs/LineageKEx.v)
+   are now instances of the theorems. *)
 From Sessions Require Import Model.Base Model.Sess Model.Hist Model.Corr Proofs.SessDefs
   Proofs.HistInv Proofs.HistInv2 Proofs.HistInv3 Proofs.HistLift Proofs.HistLift3 Proofs.HistLift4
   Proofs.IsoLaws Proofs.DeadLaws Proofs.C01Spec
   Proofs.Lineage Proofs.Lineage2 Proofs.Lineage3 Proofs.Lineage4 Proofs.Lineage5 Proofs.Lineage6
-  Proofs.LineageK Proofs.LineageK2 Proofs.LineageK3 Proofs.LineageK4 Proofs.LineageKEx.
+  Proofs.HistLiftB Proofs.LineageB
+  Proofs.LineageK Proofs.LineageK2 Proofs.LineageK3 Proofs.LineageK4 Proofs.LineageE Proofs.LineageE2 Proofs.LineageF Proofs.LineageKEx.
 
 (* ------------------------------------------------------- the notions, unfolded *)
 
@@ -138,7 +128,7 @@ Theorem C07K_late_step :
   ob_drawn (snd (step w (HReq r))) = ob_drawn (snd (step w (HReq (nocrash r)))).
 Proof. exact late_step_meaning. Qed.
 
-(* ------------------------------------------------------- the full statements (not proved) *)
+(* ------------------------------------------------------- the full statements (proved below: C07K_destroyed, C07K_invalidated, C07K_stays) *)
 
 Definition C07K_destroyed_statement : Prop :=
   forall c hs1 r hs2,
@@ -256,7 +246,7 @@ Theorem C07K_chain_into_lineage_late_partial :
   rchain (w_st w) k m -> lineage (w_st (after w hs)) kn m -> lineage (w_st (after w hs)) kn k.
 Proof. exact chain_into_lineage_late. Qed.
 
-(* ------------------------------------------------------- a crash anywhere in a step: conditional *)
+(* ------------------------------------------------------- a crash anywhere in a step: first conditionally (round 4), then unconditionally *)
 
 Theorem C07K_ev_lin_meaning :
   forall D e, ev_lin D e <->
@@ -296,6 +286,171 @@ Theorem C07K_ev_linb_sound :
   forall ids e, ev_linb ids e = true -> ev_lin (fun k => exists n, k = KGen n /\ In n ids) e.
 Proof. exact ev_linb_sound. Qed.
 
+(* ------------------------------------------------------- the events of a step (PROVED)
+
+   K D k r: what may be written under ID k - if k is in D only a replaced-ID
+   record naming an ID of D, and any replaced-ID record names a generated ID with
+   a larger ordinal than k. EL D e: every save e (successful or not) writes such
+   a record under its key. evs_ok D s s': the call from s to s' appended events
+   all satisfying EL D (and store/graves of s' are those of s with them replayed). *)
+Theorem C07K_K_meaning :
+  forall D k r, K D k r <->
+  (D k -> exists t, r_ref r = Some t /\ D t) /\
+  (forall x, r_ref r = Some x -> exists m, x = KGen m /\ forall j, k = KGen j -> (j < m)%N).
+Proof. exact (fun D k r => iff_refl _). Qed.
+
+Theorem C07K_EL_meaning : forall D e, EL D e <-> match e with EvSave k r _ => K D k r | _ => True end.
+Proof. exact (fun D e => iff_refl _). Qed.
+
+Theorem C07K_evs_ok_meaning :
+  forall D s s', evs_ok D s s' <-> exists l, CrashFault.ext s s' l /\ Forall (EL D) l.
+Proof. exact (fun D s s' => iff_refl _). Qed.
+
+(* operation by operation, from a state satisfying the invariant between
+   operations at heap mark b (Gb b (Q1 D): PF's inv b, Kcs, PRs, RWs, Kp, QD - what
+   LNb b D gives inside a step; b = 0: G (Q1 D), what LN D gives): Start,
+   RegenerateID, LogIn (exclusive or not), LogOut, Destroy and the data operations
+   (handler_op), creation, the clean-up pass, LogOut(userID), scripts *)
+Theorem C07K_Gb_meaning :
+  forall b Q base s, Gb b Q base s <-> inv b base NX ND s /\ Kcs s /\ PRs s /\ Q s.
+Proof. exact (fun b Q base s => iff_refl _). Qed.
+
+Theorem C07K_events_start :
+  forall b D base s q, Gb b (Q1 D) base s -> evs_ok D s (fst (fst (start s q))).
+Proof. exact E_start. Qed.
+
+Theorem C07K_events_regenerate :
+  forall b D base s o s' res cks, Gb b (Q1 D) base s -> hg s o -> regenerate s o = (s', res, cks) -> evs_ok D s s'.
+Proof. exact E_regenerate. Qed.
+
+Theorem C07K_events_login :
+  forall b D base s o u ex, Gb b (Q1 D) base s -> b <= o -> hg s o -> evs_ok D s (fst (fst (login s o u ex))).
+Proof. exact E_login. Qed.
+
+Theorem C07K_events_logout :
+  forall b D base s o, Gb b (Q1 D) base s -> hg s o -> evs_ok D s (fst (logout s o)).
+Proof. exact E_logout. Qed.
+
+Theorem C07K_events_handler_op :
+  forall b D base s o hc op, Gb b (Q1 D) base s -> b <= o -> hg s o -> evs_ok D s (fst (fst (do_sop s o hc op))).
+Proof. exact E_do_sop. Qed.
+
+Theorem C07K_events_create :
+  forall b D base s q s' res cks, Gb b (Q1 D) base s -> create_session s q = (s', res, cks) -> evs_ok D s s'.
+Proof. exact E_create. Qed.
+
+Theorem C07K_events_logout_user :
+  forall b D base s u s' r, Gb b (Q1 D) base s -> logout_user s u = (s', r) -> evs_ok D s s'.
+Proof. exact E_logout_user. Qed.
+
+Theorem C07K_events_fire_due : forall D s, evs_ok D s (fire_due s).
+Proof. exact E_fire_due. Qed.
+
+Theorem C07K_events_script :
+  forall b D base hc ops s o, Gb b (Q1 D) base s -> b <= o -> hg s o -> evs_ok D s (fst (fst (run_script s o hc ops))).
+Proof. exact E_run_script. Qed.
+
+(* whole request steps, from the invariant between steps at any heap mark *)
+Theorem C07K_events_step :
+  forall b D w r, LNb b D (w_st w) -> rq_plan r = [] -> Forall (EL D) (ob_evs (snd (step w (HReq (nocrash r))))).
+Proof. exact step_events. Qed.
+
+Theorem C07K_events : C07K_events_statement.
+Proof. exact events_proved. Qed.
+
+(* hence C07K_mid_crash_store_conditional without its condition: a crash after ANY
+   number of persistence calls of a fault-free request step *)
+Theorem C07K_mid_crash_store :
+  forall D w r n,
+  LN D (w_st w) -> rq_plan r = [] -> rq_crash r = Some n ->
+  pending (w_st (fst (step w (HReq r)))) = [] /\
+  forall k, D k ->
+    key_drawn (w_st (fst (step w (HReq r)))) k /\
+    (L (w_st (fst (step w (HReq r)))) k = None \/
+     exists rk t, L (w_st (fst (step w (HReq r)))) k = Some rk /\ r_ref rk = Some t /\ D t).
+Proof. exact mid_crash_store_any. Qed.
+
+(* ------------------------------------------------------- every fault-free history (PROVED)
+
+   LIb b / LNb b D: LI / LN D with PF's winv at heap mark b; LIx / LNx D: for some b. *)
+Theorem C07K_LNb_meaning :
+  forall b D s, LNb b D s <->
+  winv b ND s /\ Kcs s /\ PRs s /\ (RWs s /\ Kp s) /\
+  forall k, D k -> kd (supply s) k /\ (sref s k = None \/ exists t, sref s k = Some (Some t) /\ D t).
+Proof. exact (fun b D s => iff_refl _). Qed.
+
+Theorem C07K_LIb_meaning : forall b s, LIb b s <-> winv b ND s /\ Kcs s /\ PRs s /\ RWs s /\ Kp s.
+Proof. exact (fun b s => iff_refl _). Qed.
+
+Theorem C07K_LN_is_LNb0 : forall D s, LN D s <-> LNb 0 D s.
+Proof. exact (fun D s => iff_refl _). Qed.
+
+Theorem C07K_LNx_meaning : forall D s, LNx D s <-> exists b, LNb b D s.
+Proof. exact (fun D s => iff_refl _). Qed.
+
+Theorem C07K_LIx_meaning : forall s, LIx s <-> exists b, LIb b s.
+Proof. exact (fun s => iff_refl _). Qed.
+
+(* a process stop after ANY number n of persistence calls of a fault-free request
+   step keeps the lineage invariant, with a new heap mark *)
+Theorem C07K_crash_inv :
+  forall D b w r n, LNb b D (w_st w) -> rq_plan r = [] -> rq_crash r = Some n ->
+  exists b', LNb b' D (w_st (fst (step w (HReq r)))).
+Proof. exact crash_LNb. Qed.
+
+(* ... and shows nothing *)
+Theorem C07K_crash_obs :
+  forall w r n, rq_crash r = Some n ->
+  crashed_obs (snd (step w (HReq r))) /\
+  ob_start (snd (step w (HReq r))) = None /\ ob_final (snd (step w (HReq r))) = None.
+Proof. exact crash_obs. Qed.
+
+(* every fault-free step of every hop kind, crashing anywhere or not *)
+Theorem C07K_inv_step : forall D w h, LNx D (w_st w) -> ff_hop h -> LNx D (w_st (fst (step w h))).
+Proof. exact LNx_step. Qed.
+
+Theorem C07K_LIx_step : forall w h, LIx (w_st w) -> ff_hop h -> LIx (w_st (fst (step w h))).
+Proof. exact LIx_step. Qed.
+
+Theorem C07K_LIx_reach : forall c hs, Forall ff_hop hs -> LIx (w_st (reach c hs)).
+Proof. exact LIx_reach. Qed.
+
+Theorem C07K_step : forall D w h, LNx D (w_st w) -> ff_hop h -> lin_claim_k D w h (snd (step w h)).
+Proof. exact step_lin_any. Qed.
+
+(* C07H_lineage_dead, C07H_former_id_presented, C07H_lineage_stays without crash_free *)
+Theorem C07K_lineage_dead :
+  forall w kn hs,
+  LIx (w_st w) -> key_drawn (w_st w) kn -> absent (w_st w) kn -> Forall ff_hop hs ->
+  all_steps (lin_claim_k (lineage (w_st w) kn)) w hs.
+Proof. exact lineage_dead_any. Qed.
+
+Theorem C07K_former_id_presented :
+  forall w kn hs r k,
+  LIx (w_st w) -> key_drawn (w_st w) kn -> absent (w_st w) kn -> Forall ff_hop hs ->
+  rq_plan r = [] -> rq_crash r = None ->
+  lineage (w_st w) kn k -> presents (after w hs) r = CKey k ->
+  dead_answer (snd (step (after w hs) (HReq r))).
+Proof. exact lineage_probe_any. Qed.
+
+Theorem C07K_lineage_stays :
+  forall w kn hs k,
+  LIx (w_st w) -> key_drawn (w_st w) kn -> absent (w_st w) kn -> Forall ff_hop hs ->
+  lineage (w_st w) kn k ->
+  L (w_st (after w hs)) k = None \/
+  exists r t, L (w_st (after w hs)) k = Some r /\ r_ref r = Some t /\ lineage (w_st w) kn t.
+Proof. exact lineage_stays_any. Qed.
+
+(* the full statements *)
+Theorem C07K_destroyed : C07K_destroyed_statement.
+Proof. exact destroyed_lineage_any. Qed.
+
+Theorem C07K_invalidated : C07K_invalidated_statement.
+Proof. exact invalidated_lineage_any. Qed.
+
+Theorem C07K_stays : C07K_stays_statement.
+Proof. exact stays_any. Qed.
+
 (* the executable form of dead_answer used by the tests is sound *)
 Theorem C07K_dead_answerb_sound : forall o, dead_answerb o = true -> dead_answer o.
 Proof. exact dead_answerb_sound. Qed.
@@ -329,6 +484,39 @@ Print Assumptions C07K_events_statement_is.
 Print Assumptions C07K_crash_store.
 Print Assumptions C07K_mid_crash_store_conditional.
 Print Assumptions C07K_ev_linb_sound.
+Print Assumptions C07K_K_meaning.
+Print Assumptions C07K_EL_meaning.
+Print Assumptions C07K_evs_ok_meaning.
+Print Assumptions C07K_Gb_meaning.
+Print Assumptions C07K_events_start.
+Print Assumptions C07K_events_regenerate.
+Print Assumptions C07K_events_login.
+Print Assumptions C07K_events_logout.
+Print Assumptions C07K_events_handler_op.
+Print Assumptions C07K_events_create.
+Print Assumptions C07K_events_logout_user.
+Print Assumptions C07K_events_fire_due.
+Print Assumptions C07K_events_script.
+Print Assumptions C07K_events_step.
+Print Assumptions C07K_events.
+Print Assumptions C07K_mid_crash_store.
+Print Assumptions C07K_LNb_meaning.
+Print Assumptions C07K_LIb_meaning.
+Print Assumptions C07K_LN_is_LNb0.
+Print Assumptions C07K_LNx_meaning.
+Print Assumptions C07K_LIx_meaning.
+Print Assumptions C07K_crash_inv.
+Print Assumptions C07K_crash_obs.
+Print Assumptions C07K_inv_step.
+Print Assumptions C07K_LIx_step.
+Print Assumptions C07K_LIx_reach.
+Print Assumptions C07K_step.
+Print Assumptions C07K_lineage_dead.
+Print Assumptions C07K_former_id_presented.
+Print Assumptions C07K_lineage_stays.
+Print Assumptions C07K_destroyed.
+Print Assumptions C07K_invalidated.
+Print Assumptions C07K_stays.
 Print Assumptions C07K_dead_answerb_sound.
 (* non-vacuity (Proofs/LineageKEx.v): late crashes of a step with three ID changes
    (behind its last call) and of a step presenting a former ID (at its very
@@ -363,3 +551,8 @@ Print Assumptions lk_mid_sizes2.
 Print Assumptions lk_D_LN.
 Print Assumptions lk_events_ok.
 Print Assumptions lk_mid_theorem.
+(* the full theorem applied: crashes that cut off saves (between the two saves of
+   RegenerateID; after the first calls of a step that creates a session) *)
+Print Assumptions lk_h4_not_late.
+Print Assumptions lk_any_theorem.
+Print Assumptions lk_any_answers.
